@@ -115,6 +115,10 @@ fn v1_err(e: &v1::ParseError) -> String {
         InvalidDestinationAddress(_) => "InvalidDestinationAddress".to_string(),
         InvalidSourcePort(k) => port("InvalidSourcePort", k),
         InvalidDestinationPort(k) => port("InvalidDestinationPort", k),
+        // a variant added to the crate later must not stop the harness from compiling: the
+        // checks then report the inputs on which it shows up instead of a bare build failure
+        #[allow(unreachable_patterns)]
+        other => format!("Other:{}", sanitize(&format!("{:?}", other))),
     };
     name
 }
@@ -156,6 +160,8 @@ fn v1_bin_result(r: &Result<v1::Header<'_>, v1::BinaryParseError>) -> String {
             let name = match e {
                 v1::BinaryParseError::Parse(p) => v1_err(p),
                 v1::BinaryParseError::InvalidUtf8(_) => "InvalidUtf8".to_string(),
+                #[allow(unreachable_patterns)]
+                other => format!("Other:{}", sanitize(&format!("{:?}", other))),
             };
             format!(
                 "err {} inc={} comp={} einc={}",
@@ -219,6 +225,8 @@ fn op_rt1(rest: &str) -> Option<String> {
     let b = show(v1::Header::try_from(text.as_bytes()).map(|h| h.addresses).map_err(|e| match e {
         v1::BinaryParseError::Parse(p) => v1_err(&p),
         v1::BinaryParseError::InvalidUtf8(_) => "InvalidUtf8".to_string(),
+        #[allow(unreachable_patterns)]
+        other => format!("Other:{}", sanitize(&format!("{:?}", other))),
     }));
     let s = show(v1::Header::try_from(text.as_str()).map(|h| h.addresses).map_err(|e| v1_err(&e)));
     let fh = show(text.parse::<v1::Header<'static>>().map(|h| h.addresses).map_err(|e| v1_err(&e)));
@@ -245,7 +253,14 @@ fn v2_err(e: &v2::ParseError) -> String {
         InvalidAddresses(a, b) => format!("InvalidAddresses a={} b={}", a, b),
         InvalidTLV(a, b) => format!("InvalidTLV a={} b={}", a, b),
         Leftovers(a) => format!("Leftovers a={} b=-", a),
+        #[allow(unreachable_patterns)]
+        other => format!("Other:{} a=- b=-", sanitize(&format!("{:?}", other))),
     }
+}
+
+/// Debug text of an unknown variant reduced to one token (the line protocol is space separated).
+fn sanitize(s: &str) -> String {
+    s.chars().map(|c| if c.is_ascii_alphanumeric() { c } else { '_' }).take(40).collect()
 }
 
 fn tlv_items(mut it: v2::TypeLengthValues<'_>, nbytes: usize) -> String {
